@@ -154,3 +154,8 @@ pub fn quiet_catch<R>(f: impl FnOnce() -> R + std::panic::UnwindSafe) -> Result<
 pub fn silence_panics() {
     std::panic::set_hook(Box::new(|_| {}));
 }
+
+/// Where the run currently is (read back by bin/check when the process dies: a crash of the code under test is a finding).
+pub fn breadcrumb(text: &str) {
+    if let Ok(p) = std::env::var("VERIF_BREADCRUMB") { let _ = std::fs::write(p, text); }
+}
